@@ -174,7 +174,7 @@ func SmallBadgerOptions(dir string, inMemory bool) badger.Options {
 
 func (b *BadgerBackend) Open() (store.Store, error) {
 	if b.Default && !b.InMemory {
-		return badgerstore.OpenWithOptions(badger.DefaultOptions(b.Dir).WithLogger(nil))
+		return badgerstore.Open(b.Dir) // the shipped default
 	}
 	return badgerstore.OpenWithOptions(SmallBadgerOptions(b.Dir, b.InMemory))
 }
